@@ -406,6 +406,10 @@ func c12one(x *X, reg *pubRegime, loc *time.Location, cs c12case, step int, stal
 	switch op.I {
 	case 3:
 		doc["issue_date"] = D
+		if stale {
+			// when the operation took place is not when the tax applies
+			doc["op_date"] = dateAdd(D, -230)
+		}
 	case 4:
 		doc["issue_date"] = dateAdd(D, 45)
 		doc["value_date"] = D
